@@ -58,10 +58,12 @@ void nni_cv_init(nni_cv *cv, nni_mtx *m) { cv->mtx = &m->mtx; }
 void nni_cv_fini(nni_cv *cv) { (void) cv; g_cv_fini++; }
 static void vp_cv_count(nni_cv *cv, bool all)
 {
-	__CPROVER_assert(cv == g_cv_task0 || cv == g_cv_task1 || cv == g_cv_sched || cv == g_cv_drain,
+	__CPROVER_assert(cv == g_cv_task0 || cv == g_cv_task1 || cv == g_cv_sched || cv == g_cv_drain || cv == g_cv_eq,
 	    "cv: one of the condition variables of the objects under study");
 	__CPROVER_assert(VP_HELD((nni_mtx *) cv->mtx), "cv wake under the cv's own mutex (no lost wake-up)");
-	if (cv == g_cv_task0) {
+	if (cv == g_cv_eq) {
+		g_wk_eq++;
+	} else if (cv == g_cv_task0) {
 		g_wk_task0++;
 	} else if (cv == g_cv_task1) {
 		g_wk_task1++;
@@ -95,7 +97,16 @@ void nni_cv_wait(nni_cv *cv)
 		/* drain waiter: the workers have emptied the queue -- NOT modelled (nni_taskq_drain is not under contract) */
 	}
 }
-int nni_cv_until(nni_cv *cv, nni_time when) { (void) when; nni_cv_wait(cv); return (0); }
+static void vp_eq_sleep(nni_cv *cv, nni_time when);
+int nni_cv_until(nni_cv *cv, nni_time when)
+{
+	if (cv == g_cv_eq && g_cv_eq != NULL) {
+		vp_eq_sleep(cv, when);
+	} else {
+		nni_cv_wait(cv);
+	}
+	return (0);
+}
 
 /* ---- threads -------------------------------------------------------------- */
 int nni_thr_init(nni_thr *thr, nni_thr_func fn, void *arg)
@@ -112,7 +123,13 @@ void nni_thr_fini(nni_thr *thr) { (void) thr; g_thr_fini++; }
 void nni_thr_run(nni_thr *thr) { (void) thr; g_thr_run++; }
 void nni_thr_set_name(nni_thr *thr, const char *n)
 {
-	(void) thr; (void) n;
+	(void) thr;
+	if (n[4] == 'a') {
+		/* "nng:aio:expire": the same for nni_aio_expire_loop (expire units) */
+		__CPROVER_assert(g_expire_unit, "the expire thread body is entered only as a thread, never as a task callback");
+		__CPROVER_assume(g_expire_unit);
+		return;
+	}
 	/* Only called as the first statement of nni_taskq_thread, which has the same type as a task
 	 * callback and is therefore a syntactic candidate of every indirect call task_cb(arg).
 	 * g_worker_unit is a CONSTANT of each harness: asserting it proves the thread body is never
@@ -157,4 +174,5 @@ vp_cb(void *arg)
 	}
 }
 nni_cb vp_cb_ref = vp_cb;
+#include "modules/taskq/env_aio.h"
 #endif
